@@ -220,6 +220,6 @@ def check_any(ctx, case):
 
 
 FAMILIES = [
-    Family('estimates', check_any, strategy=lambda tier: estimate_case(), n=(2000, 40000)),
+    Family('estimates', check_any, strategy=lambda tier: estimate_case(), n=(2000, 100000)),
     Family('groups', check_any, enumerate=enum_groups),
 ]
